@@ -105,6 +105,10 @@ func genShape(r *rng, maxAttrs int, big bool) allocShape {
 	if r.chance(1, 2) {
 		fs = append(fs, numsField(11))
 		cnt++
+		if r.chance(1, 3) { // something after FINGERPRINT (legal to build, the fingerprint then does not verify)
+			fs = append(fs, withBytes([]int{3, 0x8030}, r.bytes(r.intn(12))))
+			cnt++
+		}
 	}
 	return allocShape{fields: fs, nattrs: cnt}
 }
@@ -395,6 +399,56 @@ func runC20(o *out, thorough bool, r *rng, _ []string) map[string]interface{} {
 		n = 8000
 	}
 	textTypesN := []int{0x0006, 0x0014, 0x0015, 0x8022}
+	// address getters with ONE destination over three messages in a row (previous, between, current), every
+	// combination of IPv4 / IPv6 / IPv4-mapped IPv6: once the destination has held 16 bytes nothing allocates
+	addrOf := func(kind int) []byte {
+		switch kind {
+		case 0:
+			return r.bytes(4)
+		case 1:
+			return r.bytes(16)
+		default:
+			return append([]byte{0, 0, 0, 0, 0, 0, 0, 0, 0, 0, 0xff, 0xff}, r.bytes(4)...)
+		}
+	}
+	for combo := 0; combo < 27; combo++ {
+		ks := []int{combo % 3, combo / 3 % 3, combo / 9}
+		var datas [3][]byte
+		for j, k := range ks {
+			// assembled by hand: the library's setters would write an IPv4-mapped address as IPv4
+			ip := addrOf(k)
+			tid := r.bytes(12)
+			fam := byte(1)
+			if len(ip) == 16 {
+				fam = 2
+			}
+			pad := append([]byte{0x21, 0x12, 0xa4, 0x42}, tid...)
+			xv := []byte{0, fam, byte(r.intn(256)), byte(r.intn(256))}
+			for q := range ip {
+				xv = append(xv, ip[q]^pad[q])
+			}
+			mv := append([]byte{0, fam, byte(r.intn(256)), byte(r.intn(256))}, ip...)
+			body := append(r.tlv(0x0020, xv, len(xv)), r.tlv(0x0001, mv, len(mv))...)
+			datas[j] = append(header(0x0101, len(body), tid), body...)
+		}
+		if datas[0] == nil || datas[1] == nil || datas[2] == nil {
+			continue
+		}
+		midData = datas[1]
+		for _, op := range []int{3, 4} {
+			runAllocCase([]int{op}, nil, nil, datas[0], datas[2], nil) // warm the pools and the runtime for this shape
+			obs, caps := runAllocCase([]int{op}, nil, nil, datas[0], datas[2], nil)
+			needs := map[int]int{0: 4, 1: 16, 2: 16}
+			if caps[0] >= needs[ks[2]] && obs[len(obs)-1] != 0 {
+				o.failFor("C20", "warm-op-allocates", fmt.Sprintf("x address getter %d: destination of capacity %d, messages with address kinds %v (0 IPv4, 1 IPv6, 2 IPv4-mapped IPv6): previous %s between %s current %s", op, caps[0], ks, fHex(datas[0]), fHex(datas[1]), fHex(datas[2])))
+			}
+			if ks[0] != 0 && caps[0] < 16 {
+				o.failFor("C20", "destination-capacity-lost", fmt.Sprintf("x address getter %d: the destination held 16 bytes and has capacity %d after reading kinds %v: previous %s between %s", op, caps[0], ks[:2], fHex(datas[0]), fHex(datas[1])))
+			}
+			o.count("address-getter-sequences")
+		}
+	}
+	midData = nil
 	for i := 0; i < n; i++ {
 		if i%200 == 199 {
 			runtime.GC() // bound the heap; the pools are warmed again before anything is measured
